@@ -1638,7 +1638,22 @@ func c12LeaderSiblings(p *load.Program, r *oblig.Report) {
 				}
 				return false
 			}
-			return walk(v)
+			if walk(v) {
+				return true
+			}
+			// the lookup may sit in a helper that did not exist at review time: the value then descends from the
+			// cluster's broker table (the zero Broker such a helper returns next to an error is not a source)
+			nTable := 0
+			for _, o := range an.Origins(v, an.FlowOpts{}) {
+				switch {
+				case o.Kind == "param" && isClusterParam(o.Val) && strings.HasPrefix(o.Path, ".Brokers[]"):
+					nTable++
+				case o.Kind == "const" || o.Kind == "alloc":
+				default:
+					return false
+				}
+			}
+			return nTable > 0
 		}
 		isBrokerID := func(v ssa.Value) bool {
 			switch x := v.(type) {
